@@ -261,7 +261,10 @@ func (h *Handler) SendMessageElement(ctx context.Context, s *xmpp.Session, paylo
 		msg.ID = attr.RandomID()
 	}
 
-	c := make(chan struct{})
+	// The channel has room for the one signal the handler sends after removing
+	// the entry from the table, so the handler never blocks and the channel
+	// never has to be closed.
+	c := make(chan struct{}, 1)
 	h.m.Lock()
 	h.sent[msg.ID] = c
 	h.m.Unlock()
@@ -283,7 +286,6 @@ func (h *Handler) SendMessageElement(ctx context.Context, s *xmpp.Session, paylo
 		h.m.Lock()
 		delete(h.sent, msg.ID)
 		h.m.Unlock()
-		close(c)
 		return ctx.Err()
 	}
 }
